@@ -358,3 +358,26 @@ def direct_total(text):
     except BaseException as e:  # noqa: BLE001
         return [{"key": None, "what": f"from_string raised {type(e).__name__} instead of FilterSyntaxError", "text": text}], "exc"
     return check_accept_properties(text, f), "ok"
+
+
+# ------------------------------------------------------------------ earlier FAILED parses in the same process
+
+def earlier_failures(rng, hist=None):
+    """parses that must fail (text nested too deeply, unbalanced / malformed compound texts, bad escapes, bad attribute descriptions), made before
+    and between the checked parses: whatever a failed call leaves behind must not change what later calls return"""
+    from codec import sansldap
+
+    texts = ["(!" * 5000 + "(cn=a)" + ")" * 5000, "(&" * 3000 + "(cn=a)" + ")" * 3000, "(|" * 700, "(&(|(!(a=b", "(&(a=b)(|(c=d)(!(e=\\zz))))", "(&(a=b)(1bad=x))"]
+    for _ in range(40):
+        k = rng.choice([1, 3, 10, 40, 120])
+        texts.append("".join(rng.choice(["(&", "(|", "(!"]) for _ in range(k)) + rng.choice(["(a=b", "(=x)", "(a=\\g1)", "(a b=c)", "", "(a:=x", "(1x:dn:=v)"]))
+        texts.append("(&" + "(a=b)" * rng.choice([1, 5]) + rng.choice(["(", "(x", "(cn:dn:=x)(", "((a=b))", "(a>x)"]))
+    n = 0
+    for t_ in texts:
+        try:
+            guarded(lambda: sansldap.LDAPFilter.from_string(t_), 20.0)
+        except BaseException:  # noqa: BLE001
+            n += 1
+    if hist is not None:
+        hist["earlier-failed-parses"] += n
+    return n
